@@ -15,19 +15,26 @@ def run(repo: Repo, tier, rep: Report):
     from sa.core import AnalysisError
     from sa.absint import NeedZero
     from sa.dag_interp import check_dag_and_paths
+    pending = None
     try:
         k = check_dag_and_paths(repo, rep, tier, which=("paths",))
         rep.floor("interpreted path enumerations", k, 500)
-    except (AnalysisError, NeedZero):
+    except (AnalysisError, NeedZero) as ex:
+        pending = ex           # the expansion left the interpreted fragment: the other rules still get their say
+    # the window construction over all orderings of start / end / first id / last id
+    try:
+        n = check_temporal_dag_window(repo, rep)
+        rep.floor("order types (temporal_dag window)", n, 100)
+    except AnalysisError as ex:
+        if pending is None and not rep.findings:
+            raise
+        pending = pending or ex
+    if pending is not None:
         try:
             check_path_discipline(repo, rep)
         except AnalysisError:
-            if not rep.findings:
-                raise
+            pass
         if not rep.findings:
-            raise
-    # the window construction over all orderings of start / end / first id / last id (after the interpretation on concrete
-    # ids, so that its findings stand when this symbolic check does not understand a rewritten prefix)
-    n = check_temporal_dag_window(repo, rep)
-    rep.floor("order types (temporal_dag window)", n, 100)
+            raise pending if isinstance(pending, AnalysisError) else AnalysisError("a comparison with a literal could not be placed")
+        rep.stats["incomplete"] = str(pending)
     rep.assume("node labels contain no '_' (the property's own restriction)")
